@@ -851,6 +851,68 @@ def one_foreign(item):
     return res
 
 
+# ----------------------------------------------------------------------------- the write sits in an IMPORTED module
+# (round 7): the whole case — declaration and illegal write — is moved into `lib9.ms`; the entry only imports it, in
+# three shapes (plain `import lib9`, by name, through a middle module).  It must be rejected exactly like the
+# single-file case: a diagnostic that names lib9.ms, nothing runs.  The write-free twin must be accepted.
+INMODULE_SHAPES = ["plain", "named", "chain", "chain_named"]
+
+
+def build_inmodule(did, form, ctx, shape, write=True):
+    decl = DECL_BY_ID[did]
+    files, wline = build(decl, form, ctx, write=write)
+    lib = files.pop("main.ms")
+    lib = "\n".join(l for l in lib.split("\n") if l != 'print "%s"' % RUN) + "\nexport zz9: int = 1\n"
+    files["lib9.ms"] = lib
+    imp = "import lib9\nprint lib9.zz9\n" if shape in ("plain", "chain") else "import zz9 from lib9\nprint zz9\n"
+    if shape.startswith("chain"):
+        files["mid9.ms"] = imp.split("\n")[0] + "\nexport yy9: int = 2\n"
+        files["main.ms"] = 'print "%s"\nimport mid9\nprint mid9.yy9\n' % RUN
+    else:
+        files["main.ms"] = 'print "%s"\n' % RUN + imp
+    return files
+
+
+def one_inmodule(item):
+    did, form, ctx, shape = item
+    res = {"case": "inmodule:%s/%s/%s/%s" % item, "runs": 2}
+    cfiles = build_inmodule(did, form, ctx, shape, write=False)
+    rc_, _, _ = core.run_program(cfiles, cpu=10)
+    if rc_.cls in ("wall_timeout", "cpu_timeout", "spawn_error"):
+        res["inconclusive"] = "%s: %s" % (res["case"], rc_.cls)
+        return res
+    if rc_.cls != "ok":
+        res["vacuous"] = (rc_.out + rc_.err)[-300:]          # the write-free twin is not accepted: nothing to learn
+        return res
+    files = build_inmodule(did, form, ctx, shape)
+    r, _, _ = core.run_program(files, cpu=10)
+    if r.cls in ("wall_timeout", "cpu_timeout", "spawn_error"):
+        res["inconclusive"] = "%s: %s" % (res["case"], r.cls)
+        return res
+    text = r.out + r.err
+    if core.compile_rejected(r) and RUN not in r.out and "lib9.ms:" in text:
+        res["rejected"] = True
+    else:
+        res["problem"] = "accepted" if RUN in r.out or r.cls == "ok" else ("no_position_in_lib9" if core.compile_rejected(r) else r.cls)
+        res["witness"] = {"case": res["case"], "files": files, "expected": "rejected at compile time with a diagnostic naming "
+                          "lib9.ms, nothing runs", "observed": res["problem"], "run": r.brief()}
+    return res
+
+
+def inmodule_cases():
+    """A sub-product of the main one: scalar / list / optional constants x the basic write forms x three contexts."""
+    want_decl = ("const_untyped@module", "const_typed@module", "const_str@module", "const_untyped@function", "const_optint@module",
+                 "const_list@module", "const_unpacked@module")
+    want_form = ("assign", "typed_assign", "unwrap_assign", "modify", "opassign_add", "opassign_mul", "index_assign",
+                 "index_opassign_add", "from_counter", "unpack")
+    out = []
+    for did, form, ctx in product()[0]:
+        if did in want_decl and form in want_form and ctx in ("same_scope", "nested_function", "nested_block"):
+            for shape in INMODULE_SHAPES:
+                out.append((did, form, ctx, shape))
+    return out
+
+
 def work(item):
     if item[0] == "foreign":
         return one_foreign(item[1])
@@ -858,6 +920,8 @@ def work(item):
         return one_case(item[1])
     if item[0] == "shadow":
         return one_shadow(item[1])
+    if item[0] == "inmodule":
+        return one_inmodule(item[1])
     return one_control(item[1])
 
 
@@ -869,7 +933,7 @@ def run(ctx):
     controls = sorted({(c[0], c[2]) for c in cases if not DECL_BY_ID[c[0]].get("predecl")})
     shadows = shadow_cases()
     items = [("case", c) for c in cases] + [("control", c) for c in controls] + [("shadow", c) for c in shadows] + \
-        [("foreign", c) for c in foreign_cases()]
+        [("foreign", c) for c in foreign_cases()] + [("inmodule", c) for c in inmodule_cases()]
     results = core.pmap(work, items, chunksize=8)
     cov = {"cases": len(cases), "controls": len(controls), "dropped_by_applicability_table": len(dropped),
            "rejected_as_required": 0, "rejected_on_write_line": 0, "twins_run": 0, "twins_accepted_and_changed": 0,
@@ -885,6 +949,17 @@ def run(ctx):
         out.evaluations += res["runs"]
         if "inconclusive" in res:
             out.inconclusive.append(res["inconclusive"])
+            continue
+        if kind == "inmodule":
+            cov["inmodule_cases"] = cov.get("inmodule_cases", 0) + 1
+            if res.get("vacuous"):
+                cov["inmodule_cases_vacuous(write-free twin not accepted)"] = cov.get("inmodule_cases_vacuous(write-free twin not accepted)", 0) + 1
+            elif "problem" in res:
+                out.violations.append(core.Violation("C10:inmodule:%s/%s/%s:%s:%s" % (item[0], base_form(item[1])[0], CTX_CLASS[item[2]], item[3], res["problem"]),
+                                                     "the illegal write inside an imported module (%s) is not rejected: %s" % (res["case"], res["problem"]), res["witness"]))
+            else:
+                cov["inmodule_cases_rejected"] = cov.get("inmodule_cases_rejected", 0) + 1
+                out.distinct.add(core.h(["inmodule", item]))
             continue
         if kind == "foreign":
             cov["callers_const_cases"] = cov.get("callers_const_cases", 0) + 1
